@@ -189,6 +189,18 @@ Proof.
   split; [reflexivity|split; [exact I|split; [exact C|]]]. intros ver x. rewrite D. apply den_items_nets.
 Qed.
 
+(* add(IPRange | IPGlob): the one branch of add() that is a bulk operation (iprange_to_cidrs, dict.update, compact) *)
+Lemma set_add_range d ver s e : Forall wf_net d -> valid_ver ver = true -> 0 <= s <= e -> e < 2 ^ width ver ->
+  exists d', set_add d (ERange ver s e) = Ok d' /\ SetInv d' /\ canon_nets d' /\
+    forall ver' x, den d' ver' x <-> den d ver' x \/ (ver' = ver /\ s <= x <= e).
+Proof.
+  intros Wd V Hs He. destruct (range_dict ver s e V Hs He) as (cs & E & C & F & I & D).
+  assert (W2: Forall wf_net (dupdate d cs)) by (apply Forall_dupdate; [exact Wd|apply SetInv_wf, I]).
+  destruct (C06_compact _ W2) as (d' & E' & I' & C' & D').
+  exists d'. cbn [set_add]. rewrite E. cbn [bind]. rewrite F.
+  split; [exact E'|split; [exact I'|split; [exact C'|]]]. intros ver' x. rewrite D', den_dupdate, D. tauto.
+Qed.
+
 (* ================================================================ update() *)
 Lemma update_set d o : Forall wf_net d -> Forall wf_net o ->
   exists d', set_update d (ASet o) = Ok d' /\ SetInv d' /\ canon_nets d' /\
@@ -223,7 +235,8 @@ Proof.
   intros HA d a I W Hn. destruct a as [|n|ver s e|o|l|e]; cbn [wf_sarg in_sarg] in *.
   - contradiction.
   - apply (HA d (ENet n) I W).
-  - apply (HA d (ERange ver s e) I W).
+  - destruct W as (V & Hs & He). destruct (set_add_range d ver s e (SetInv_wf _ I) V Hs He) as (d' & E & I' & _ & D).
+    exists d'. cbn [set_update]. eauto.
   - destruct (update_set d o (SetInv_wf _ I) (SetInv_wf _ W)) as (d' & E & I' & _ & D). eauto.
   - destruct (update_iter d l (SetInv_wf _ I) W) as (d' & E & I' & _ & D). eauto.
   - contradiction.
@@ -270,6 +283,19 @@ Theorem C06_pickle d : SetInv d ->
   exists d', set_setstate (set_getstate d) = Ok d' /\ d' = d /\ SetInv d' /\ forall ver x, den d' ver x <-> den d ver x.
 Proof.
   intros I. exists d. split; [apply setstate_getstate; [apply I|apply SetInv_nodup, I]|]. split; [reflexivity|split; [exact I|tauto]].
+Qed.
+
+(* ================================================================ pop() *)
+(* dict.popitem() is LIFO: the last inserted key goes; KeyError exactly on the empty set *)
+Theorem C06_pop : pop_spec.
+Proof.
+  intros d I. unfold set_pop. destruct (rev d) as [|k r] eqn:E.
+  - split; [reflexivity|]. rewrite <- (rev_involutive d), E. reflexivity.
+  - assert (Ed: d = rev r ++ [k]) by (rewrite <- (rev_involutive d), E; reflexivity).
+    assert (P: Permutation d (k :: rev r)) by (rewrite Ed; apply Permutation_sym, Permutation_cons_append).
+    pose proof (SetInv_perm _ _ P I) as I2. destruct (SetInv_cons_inv _ _ I2) as (_ & I3 & _).
+    split; [rewrite Ed; apply in_or_app; right; now left|split; [exact I3|]].
+    intros ver x. rewrite (den_cons_inv k (rev r) ver x I2). rewrite (den_perm _ _ ver x P). tauto.
 Qed.
 
 (* ================================================================ histories *)
@@ -470,7 +496,6 @@ Hypothesis HR : iprange_to_cidrs_spec.
 Hypothesis HM : cidr_merge_spec.
 Hypothesis HA : add_spec.
 Hypothesis HRm : remove_spec.
-Hypothesis HP : pop_spec.
 Hypothesis HI : inter_spec.
 Hypothesis HD : diff_spec.
 Hypothesis HX : xor_spec.
@@ -492,7 +517,7 @@ Proof.
     destruct (rel_get rs s r R) as (I0 & D0). destruct (rel_targ rs s a R W) as (Wa & Da).
     assert (G: a <> TNone -> exists s', s' = aput s r (fun ver x => aget s r ver x \/ den_targ s a ver x) /\
                                      Rel (mutr rs r (set_update (get rs r) (resolve rs a))) s').
-    { intros Hn. destruct (C06_update HM HA (get rs r) (resolve rs a) I0 Wa) as (d & E & I & D).
+    { intros Hn. destruct (C06_update HR HM HA (get rs r) (resolve rs a) I0 Wa) as (d & E & I & D).
       { destruct a; cbn [resolve]; try discriminate. congruence. }
       eexists. split; [reflexivity|]. rewrite E. cbn [mutr]. apply rel_put; auto. intros ver x. rewrite D, D0, Da. tauto. }
     destruct a as [|n|ver a b|r'|l]; try (apply G; discriminate).
@@ -510,7 +535,7 @@ Proof.
     destruct (rel_get rs s r R) as (I0 & D0). destruct (C06_pickle _ I0) as (d & E & -> & _).
     eexists. split; [reflexivity|]. rewrite E. cbn [mutr]. apply rel_put; auto.
   - (* pop *)
-    destruct (rel_get rs s r R) as (I0 & D0). pose proof (HP _ I0) as P.
+    destruct (rel_get rs s r R) as (I0 & D0). pose proof (C06_pop _ I0) as P.
     destruct (set_pop (get rs r)) as [[d k]|e].
     + destruct P as (Hk & I & D). eexists. split.
       * right. exists (sorted (get rs r)), k. destruct (C06_shown _ I0) as (C & Ds).
